@@ -170,8 +170,11 @@ ENC = {
     'utf-8': 'ä€中😀﻿', 'utf-8-sig': 'ä€中😀', 'utf-16': 'ä€中😀', 'utf-16-le': 'ä€中😀', 'utf-16-be': 'ä€中😀',
     'utf-32': 'ä€中😀', 'utf-32-le': 'ä€中😀', 'utf-32-be': 'ä€中😀', 'latin-1': 'äöü©ÿ', 'cp1252': '€“äÿ',
     'iso-8859-15': '€Šä', 'koi8-r': 'Ждя', 'shift_jis': 'あ漢ｱ', 'gb2312': '中文', 'ascii': '',
+    # stateful legacy encodings: the encoder must be told when the input ends (closing shift sequence)
+    'iso2022_jp': 'あ漢日', 'hz': '中文', 'euc_jp': 'あ漢ｱ', 'iso2022_kr': '한글',
 }
-ASCII_COMPAT = {'utf-8', 'utf-8-sig', 'latin-1', 'cp1252', 'iso-8859-15', 'koi8-r', 'shift_jis', 'gb2312', 'ascii'}
+ASCII_COMPAT = {'utf-8', 'utf-8-sig', 'latin-1', 'cp1252', 'iso-8859-15', 'koi8-r', 'shift_jis', 'gb2312', 'ascii',
+                'iso2022_jp', 'hz', 'euc_jp', 'iso2022_kr'}
 FRAG = ['a', 'b', '{', '}', ':', ';', ' ', '\n', '"', "'", '@', 'c', 'h', '\\', '@charset "', '@import "x";', 'a{b:c}',
         '/* c */', '@charset', '@ch', '@c', '"x";']
 
@@ -273,7 +276,7 @@ def check_roundtrip(case, ctx):
                 raise Violation('roundtrip:decode-auto', f'decode({data!r}) = {a[0]!r}, expected {rewrite(ref_auto, det[0])!r} ({det})')
             if canon(det[0]) == canon(used) or (canon(det[0]), canon(used)) == ('utf-8-sig', 'utf-8'):
                 # the rule names the encoding actually used; its spelling (case, alias) may differ
-                if rewrite(a[0], 'X') != rewrite(want, 'X') and rewrite(a[0], 'X') != rewrite(want, 'X').lstrip('﻿'):
+                if rewrite(a[0], 'X') != rewrite(want, 'X') and rewrite(a[0], 'X') != rewrite(want, 'X').removeprefix('﻿'):  # one leading U+FEFF is the signature
                     raise Violation('roundtrip:auto-text-not-restored', f'{t!r} -[{used}]-> {data!r} -> {a[0]!r}')
             ctx.event('auto-detected')
     ctx.event('enc:' + enc)
@@ -399,7 +402,7 @@ def _check_chunk(case, ctx, found):
                 r = codecs.getreader('css')(ChunkStream(schunks), **k)
                 got = r.read()
         except UnicodeDecodeError as e:
-            if canon(used) in ('shift_jis', 'gb2312'):
+            if canon(used) in ('shift_jis', 'gb2312', 'euc_jp', 'iso2022_jp', 'iso2022_kr', 'hz'):
                 raise Violation('chunking:streamreader-legacy-multibyte-cut', f'{[c.hex() for c in schunks]} {k}: {e}')
             raise Violation('chunking:streamreader-decode-error', f'{[c.hex() for c in schunks]} {k}: {e}')
         if got != exp_text:
@@ -421,6 +424,10 @@ def _check_chunk(case, ctx, found):
     if buf.getvalue() != exp_bytes:
         if undetermined_text(t) and exp_bytes.startswith(buf.getvalue()):
             found.append(Violation('chunking:stream-end-undetermined:writer', f'{tchunks!r} {kw} -> {buf.getvalue()!r}, one-shot {exp_bytes!r}'))
+        elif (exp_bytes.startswith(buf.getvalue()) and exp_bytes[len(buf.getvalue()):] in (b'\x0f', b'\x1b(B', b'~}')
+              and t and ord(t[-1]) > 127):
+            # the text ends in the shifted state of a stateful encoding and nobody tells the writer that the stream ends
+            found.append(Violation('chunking:streamwriter-closing-shift-missing', f'{tchunks!r} {kw} -> {buf.getvalue()!r}, one-shot {exp_bytes!r}'))
         else:
             raise Violation('chunking:streamwriter', f'{tchunks!r} {kw} -> {buf.getvalue()!r}, one-shot {exp_bytes!r}')
 
